@@ -566,7 +566,10 @@ class GCPBatchExecutor(Executor):
             self._scheduler.reject_job(None, error)
 
         self.log("Shutting down executor...", level=logging.DEBUG)
-        self.stop()
+        # Only wind down our own monitoring. Debug jobs may still be pending in the
+        # DockerExecutor, which has its own monitor thread that must keep polling them.
+        self.is_running = False
+        self.arrayer.stop()
 
     def _process_task_status(self, task: Task) -> None:
         assert self._scheduler
